@@ -12,13 +12,14 @@ import LJT.Ops.C03
 import LJT.Ops.C04
 import LJT.Ops.C11
 import LJT.Ops.C14
+import LJT.Ops.C17
 /-! `ljt-driver`: one operation per input line, one `R <result>` line per operation.
 Unknown operations answer `R skip` (the harness then compares nothing for that op). -/
 open LJT.Ops
 
 def dispatch (line : String) : String :=
   let t := toks line
-  let r := (opC19 t) <|> (opC20 t) <|> (opC13 t) <|> (opC16 t) <|> (opC02 t) <|> (opC10 t) <|> (opC08 t) <|> (opC06 t) <|> (opC07 t) <|> (opC18 t) <|> (opC03 t) <|> (opC04 t) <|> (opC11 t) <|> (opC14 t)
+  let r := (opC19 t) <|> (opC20 t) <|> (opC13 t) <|> (opC16 t) <|> (opC02 t) <|> (opC10 t) <|> (opC08 t) <|> (opC06 t) <|> (opC07 t) <|> (opC18 t) <|> (opC03 t) <|> (opC04 t) <|> (opC11 t) <|> (opC14 t) <|> (opC17 t)
   match r with
   | some s => s
   | none => "skip"
